@@ -371,6 +371,43 @@ def check_resume_offset(rep, mod):
                 sample='continues at state->count (32 bit)')
 
 
+def check_null_skip(rep, mod):
+    """the gzip optional fields are copied into buffers the caller MAY provide; with a NULL buffer the field is skipped, whatever its length"""
+    R = rep.rule('R-HDR-NULL-SKIP', 'buffer_header_copy / string_header_copy: the return of the overflow code they are given (buf_error / str_error) is reached only through the "buffer != NULL" edge of a test of the '
+                 'buffer parameter: a header field is never reported as not fitting into a buffer the caller did not provide (isal_inflate itself skips name / comment / extra with NULL buffers)', floor=2,
+                 unit='copy helpers')
+    for fn, bufp, errp in (('buffer_header_copy', 2, 5), ('string_header_copy', 1, 4)):
+        f = mod.funcs.get(fn)
+        if f is None:
+            raise AnalysisBroken('%s not found' % fn)
+        R.instance()
+        buf, err = f.params[bufp][1], f.params[errp][1]
+        # blocks that hand the error parameter to the return
+        rets = [i for i in f.all_insns() if i.op == 'ret' and i.ops]
+        src = set()
+        for r in rets:
+            d = f.defs.get(r.ops[0])
+            if r.ops[0] == err:
+                src.add(r.block)
+            elif d is not None and d.op == 'phi':
+                src |= {b for v, b in d.extra['incoming'] if v == err}
+        if not src:
+            raise AnalysisBroken('%s never returns its error-code parameter' % fn)
+        # edges on which buf != NULL is known
+        nonnull = set()
+        for b in f.order:
+            t = f.blocks[b].insns[-1]
+            c = f.defs.get(t.extra.get('cond', '')) if t.op == 'br' and t.extra.get('cond') else None
+            if c is not None and c.op == 'icmp' and c.extra['pred'] in ('eq', 'ne') and buf in c.ops[:2] and 'null' in c.ops[:2]:
+                tt, tf = t.extra['targets']
+                tgt = tt if c.extra['pred'] == 'ne' else tf
+                if f.blocks[tgt].preds == [b]:          # the fact holds in the target only if the edge is its single way in
+                    nonnull.add(tgt)
+        ok = all(any(f.dominates(n_, s_) for n_ in nonnull) for s_ in src)
+        R.check(ok, mod.where(f, None), '%s can return its overflow code on a path that never established buffer != NULL: with no buffer supplied (fields skipped) a field of a particular length - e.g. an empty name - is '
+                'reported as overflowing and the member is rejected' % fn, key='R-HDR-NULL-SKIP|%s' % fn, sample='%s: overflow code only behind buffer != NULL' % fn)
+
+
 def check_magic(rep, mod):
     """RFC 1952: a member starts with ID1 = 0x1f, ID2 = 0x8b, CM = 8.  Each of the three comparisons must by itself send a mismatch to the documented
     error return; a mismatch edge from which the parser can still be reached (e.g. `&&` instead of `||`) accepts headers with one wrong byte."""
@@ -423,6 +460,7 @@ def main(tier):
     rep.attempt(check_field_pairing, rep, mod)
     rep.attempt(check_resume, rep, mod)
     rep.attempt(check_resume_offset, rep, mod)
+    rep.attempt(check_null_skip, rep, mod)
     import probepure
     rep.attempt(probepure.check_avail_unsigned, rep, mod, field_offsets('struct isal_zstream', ['avail_in', 'avail_out']), field_offsets('struct inflate_state', ['avail_in', 'avail_out']))
     rep.attempt(check_magic, rep, mod)
